@@ -7,6 +7,14 @@
 // server in a later block whose time lies in [now-3s, now+latency]. The signaller's view of the chain is served
 // by the real feeds gRPC query server on ch.Ctx().
 //
+// Interval params: governance also raises and cuts MinInterval / MaxInterval / PowerStepThreshold. The chain enforces
+// the interval STORED in the current-feeds record until the next recalculation (every CurrentFeedsUpdateInterval
+// blocks); a third of the slow-update cases never recalculates within the history ("long gap") and changes these params
+// early, so whole chain-enforced intervals elapse while the live params say something else. The liveness oracle
+// uses the stored intervals; in addition the CurrentFeeds query answer is compared with the stored record after
+// every block (ids, order, power, interval, update stamp; deviation recomputed from the live params as the query
+// documents) - signature C20/current-feeds-query.
+//
 // Submissions may be DELAYED: SubPat entries 3 and 4 keep a batch in flight for that many ticks, also across a block
 // in which the chain recalculates the current feeds (batches with delay 0..2 are included in that block at the
 // latest). Long delays are used only when every cooldown of the case leaves the slack for them (cooldown <=
@@ -117,6 +125,8 @@ type govChange struct {
 	DevMul   int64 `json:"dev_mul,omitempty"`  // new MaxDeviationBasisPoint = (new or current) MinDev * DevMul
 	MaxDev   int64 `json:"max_dev,omitempty"`  // new MaxDeviationBasisPoint (absolute; wins over DevMul)
 	Quorum   int   `json:"quorum,omitempty"`   // new PriceQuorum: 1 "0.30", 2 "0.5", 3 "1"
+	MinMul   int64 `json:"min_mul,omitempty"`  // new MinInterval = the case's MinInterval * MinMul (1..3; never below the case's, the cooldowns rely on it)
+	Step     int64 `json:"step,omitempty"`     // new PowerStepThreshold
 	Follow   []evt `json:"follow,omitempty"`   // events; At = offset in steps from the first step that sees the new params
 }
 
@@ -232,6 +242,9 @@ func genLoop(rt *rapid.T) loopCase {
 			c.Cooldown = c.MinI - longDelaySlack // leave room for delayed submissions
 		}
 	}
+	if !fastUpd && gen.Chance(rt, "longgap", 1, 3) {
+		c.UpdEvery = 5000 // no recalculation of the current feeds within the history: stored intervals stay in force
+	}
 	n := gen.OneOf(rt, "nsig", 1, 2, 3, 3, 4, 4, 5, 6)
 	anyIn := false
 	for i := 0; i < n; i++ {
@@ -343,7 +356,8 @@ const govVoting = 4 * time.Second // voting period of the generated chains
 // by a burst of threshold moves / status flips on all signals, so that right after the change some signal has a reason
 // to be submitted that the old cooldown would allow and the new one does not.
 func genGov(rt *rapid.T, c *loopCase) {
-	if !gen.Chance(rt, "gov", 11, 20) {
+	longGap := c.UpdEvery >= 1000
+	if !longGap && !gen.Chance(rt, "gov", 11, 20) {
 		return
 	}
 	n := len(c.Sigs)
@@ -363,8 +377,13 @@ func genGov(rt *rapid.T, c *loopCase) {
 			break
 		}
 		ch := govChange{At: gen.Range(rt, "gat", lo, hi)}
+		kind := gen.Pick(rt, "gkind", 44, 18, 7, 0, 8, 5, 18)
+		if longGap && g == 0 {
+			// early change of the interval params, long before any recalculation
+			ch.At = gen.Range(rt, "gatearly", 15, 60)
+			kind = 6
+		}
 		at = ch.At + 25
-		kind := gen.Pick(rt, "gkind", 50, 20, 8, 8, 8, 6)
 		if kind == 0 && cur+1 > maxCd {
 			kind = 1
 		}
@@ -396,6 +415,21 @@ func genGov(rt *rapid.T, c *loopCase) {
 			}
 		case 2:
 			ch.Grace = gen.OneOf[int64](rt, "ggrace", 10, 15, 30, 60)
+		case 6: // the params feed intervals are computed from (in force at the next recalculation of the current feeds)
+			switch gen.Pick(rt, "ikind", 35, 35, 15, 15) {
+			case 0:
+				ch.MaxMul = gen.OneOf[int64](rt, "gmaxmul", 1, 2, 3, 5, 10, 10)
+			case 1:
+				ch.MinMul = gen.OneOf[int64](rt, "gminmul", 1, 2, 2, 3, 3)
+			case 2:
+				ch.Step = gen.OneOf[int64](rt, "gstep", 500_000, 1_000_000, 2_000_000, 2_000_000)
+			default:
+				ch.MinMul = gen.OneOf[int64](rt, "gminmul2", 1, 2, 3)
+				ch.MaxMul = gen.OneOf[int64](rt, "gmaxmul2", 1, 2, 5, 10)
+				if gen.Chance(rt, "gstep2", 1, 2) {
+					ch.Step = gen.OneOf[int64](rt, "gstep3", 500_000, 1_000_000, 2_000_000)
+				}
+			}
 		case 3:
 			ch.MaxMul = gen.OneOf[int64](rt, "gmaxmul", 1, 2, 3, 5, 10)
 		case 4:
@@ -539,6 +573,12 @@ func (c *loopCase) sanitize() {
 		}
 		if g.MaxMul != 0 {
 			clamp(&g.MaxMul, 1, 10)
+		}
+		if g.MinMul != 0 {
+			clamp(&g.MinMul, 1, 3)
+		}
+		if g.Step != 0 {
+			clamp(&g.Step, 250_000, 4_000_000)
 		}
 		if g.MinDev != 0 {
 			clamp(&g.MinDev, 1, 3000)
@@ -751,11 +791,23 @@ func refDeviated(devBps int64, oldP, newP uint64) tri {
 	}
 }
 
-func refDeviationBps(power, minDev, maxDev int64) int64 {
-	if power < powerStep {
+// refInterval: the feed interval the docs define for a power under given params (0 = not a feed).
+func refInterval(power, step, minI, maxI int64) int64 {
+	if step <= 0 || power < step {
 		return 0
 	}
-	d := maxDev / (power / powerStep)
+	iv := maxI / (power / step)
+	if iv < minI {
+		iv = minI
+	}
+	return iv
+}
+
+func refDeviationBps(power, step, minDev, maxDev int64) int64 {
+	if step <= 0 || power < step {
+		return 0
+	}
+	d := maxDev / (power / step)
 	if d < minDev {
 		d = minDev
 	}
@@ -963,6 +1015,9 @@ func runLoop(c loopCase) *pbt.Verdict {
 	daemonView := map[string]feedView{} // the current feeds as the daemon saw them at its last successful poll
 	feedSetEpoch := 0                   // number of changes of the set of current-feed ids
 	var nLongSubs, nRecalcInFlight, nRecalcSeen, nRacedFeed int64
+	staleSince := map[string]int{} // listed signal -> step since which its stored interval differs from what the live params give
+	var nStaleSmallerSteps int64
+	var nStaleSteps, nStaleFull, nStaleFullLarger, nStaleFullSmaller, nIntervalParamChanges, nQueryChecks int64
 	thrSeen := map[int64]bool{} // deviation thresholds (bps) current feeds had during the history
 	var nExactSteps, nExactDue, nExactEmit, nExactSecond int64
 	type exactWait struct {
@@ -1019,8 +1074,38 @@ func runLoop(c loopCase) *pbt.Verdict {
 		}
 		devOf := map[string]int64{}
 		for _, f := range cf.Feeds {
-			devOf[f.SignalID] = refDeviationBps(f.Power, params.MinDeviationBasisPoint, params.MaxDeviationBasisPoint)
+			devOf[f.SignalID] = refDeviationBps(f.Power, params.PowerStepThreshold, params.MinDeviationBasisPoint, params.MaxDeviationBasisPoint)
 			thrSeen[devOf[f.SignalID]] = true
+		}
+		// stored (chain-enforced) interval versus the interval the live params would give
+		listed := map[string]bool{}
+		for _, f := range cf.Feeds {
+			listed[f.SignalID] = true
+			live := refInterval(f.Power, params.PowerStepThreshold, params.MinInterval, params.MaxInterval)
+			if live == f.Interval {
+				delete(staleSince, f.SignalID)
+				continue
+			}
+			nStaleSteps++
+			if live < f.Interval {
+				nStaleSmallerSteps++
+			}
+			if _, ok := staleSince[f.SignalID]; !ok {
+				staleSince[f.SignalID] = k
+			}
+			if int64(k-staleSince[f.SignalID]) == f.Interval { // a whole enforced interval has gone by under other live params
+				nStaleFull++
+				if live > f.Interval {
+					nStaleFullLarger++
+				} else {
+					nStaleFullSmaller++
+				}
+			}
+		}
+		for id := range staleSince {
+			if !listed[id] {
+				delete(staleSince, id)
+			}
 		}
 
 		// (a0) second half of earlier "exact" events: the aligned price has been accepted by the chain, so the move of
@@ -1406,8 +1491,17 @@ func runLoop(c loopCase) *pbt.Verdict {
 			if g.Grace > 0 {
 				np.GracePeriod = g.Grace
 			}
+			if g.MinMul > 0 {
+				np.MinInterval = c.MinI * g.MinMul
+				if np.MaxInterval < np.MinInterval {
+					np.MaxInterval = np.MinInterval
+				}
+			}
 			if g.MaxMul > 0 {
 				np.MaxInterval = np.MinInterval * g.MaxMul
+			}
+			if g.Step > 0 {
+				np.PowerStepThreshold = g.Step
 			}
 			if g.MinDev > 0 {
 				np.MinDeviationBasisPoint = g.MinDev
@@ -1557,6 +1651,9 @@ func runLoop(c loopCase) *pbt.Verdict {
 			default:
 				nOtherParam++
 			}
+			if pa.MinInterval != paramsBefore.MinInterval || pa.MaxInterval != paramsBefore.MaxInterval || pa.PowerStepThreshold != paramsBefore.PowerStepThreshold {
+				nIntervalParamChanges++
+			}
 			if govState == govWait && govIdx < len(c.Gov) {
 				for _, e := range c.Gov[govIdx].Follow {
 					dynEvents[k+1+e.At] = append(dynEvents[k+1+e.At], e)
@@ -1644,6 +1741,33 @@ func runLoop(c loopCase) *pbt.Verdict {
 				nLegitDeact++
 			}
 		}
+		// the CurrentFeeds query must describe the stored record: same signals in the same order with the stored power
+		// and interval and the stored update stamp; the deviation is computed from the live params
+		if os.Getenv("VERIF_C20_NOQUERYCHECK") != "" { // development aid: lets the liveness oracle show what it sees on its own
+		} else if qr, qerr := fq.qs.CurrentFeeds(ctx2, &feedstypes.QueryCurrentFeedsRequest{}); qerr != nil {
+			v.Failf("C20/current-feeds-query", "step %d: query failed: %v", k, qerr)
+		} else {
+			nQueryChecks++
+			pq := fk.GetParams(ctx2)
+			got := qr.CurrentFeeds
+			switch {
+			case len(got.Feeds) != len(cf2.Feeds):
+				v.Failf("C20/current-feeds-query", "step %d h=%d: query lists %d feeds, the stored record %d", k, res.Height, len(got.Feeds), len(cf2.Feeds))
+			case got.LastUpdateTimestamp != cf2.LastUpdateTimestamp || got.LastUpdateBlock != cf2.LastUpdateBlock:
+				v.Failf("C20/current-feeds-query", "step %d h=%d: query says last update (t=%d, h=%d), the stored record (t=%d, h=%d)", k, res.Height,
+					got.LastUpdateTimestamp, got.LastUpdateBlock, cf2.LastUpdateTimestamp, cf2.LastUpdateBlock)
+			default:
+				for i, f := range cf2.Feeds {
+					g := got.Feeds[i]
+					wantDev := refDeviationBps(f.Power, pq.PowerStepThreshold, pq.MinDeviationBasisPoint, pq.MaxDeviationBasisPoint)
+					if g.SignalID != f.SignalID || g.Power != f.Power || g.Interval != f.Interval || g.DeviationBasisPoint != wantDev {
+						v.Failf("C20/current-feeds-query", "step %d h=%d: feed %d: query answers {%s power %d interval %d deviation %d}, stored {%s power %d interval %d} (the interval the chain enforces), deviation from live params %d",
+							k, res.Height, i, g.SignalID, g.Power, g.Interval, g.DeviationBasisPoint, f.SignalID, f.Power, f.Interval, wantDev)
+						break
+					}
+				}
+			}
+		}
 		checkPendingConsistent("after block", k)
 	}
 
@@ -1697,6 +1821,16 @@ func runLoop(c loopCase) *pbt.Verdict {
 	cls(nRecalcInFlight > 0, "feed-params-recalculated-while-in-flight")
 	cls(nRacedFeed > 0, "submission-raced-with-feed-update")
 	cls(c.UpdEvery <= 8, "fast-feed-updates")
+	cls(c.UpdEvery >= 1000, "no-feed-recalculation-in-history")
+	v.Count("interval_param_changes", nIntervalParamChanges)
+	v.Count("signal_steps_stored_interval_differs_from_live_params", nStaleSteps)
+	v.Count("stored_interval_stale_for_a_full_interval", nStaleFull)
+	v.Count("current_feeds_query_checks", nQueryChecks)
+	cls(nIntervalParamChanges > 0, "interval-params-changed")
+	cls(nStaleFull > 0, "full-enforced-interval-elapsed-under-changed-interval-params")
+	cls(nStaleFullLarger > 0, "live-params-give-larger-interval-than-enforced-for-a-full-interval")
+	cls(nStaleFullSmaller > 0, "live-params-give-smaller-interval-than-enforced-for-a-full-interval")
+	cls(nStaleSmallerSteps > 0, "live-params-give-smaller-interval-than-enforced")
 	nonRound := 0
 	for d := range thrSeen {
 		if d%50 != 0 {
